@@ -34,7 +34,8 @@ def rules(fx, rep):
     where = fx.fn(FE)['span']
     # which local helpers belong to the fragment: nested fns of final_exponentiation
     def inline(p):
-        return p.startswith(FE + '::')
+        import inline as INL
+        return p.startswith(FE + '::') or INL.is_private_helper(fx, p)
     I = exp.Interp(fx, 'mul', inline=inline, conj_as=q**6, frob_q=q)
     try:
         res = I.run(FE, [('byref', exp.Lin.atom('f'))])
